@@ -12,6 +12,7 @@ CONSTANTS
   Lims = @@LIMS@@
   NodeCounts = @@NODES@@
   LockKeys = @@KEYS@@
+  Variants = @@VARIANTS@@
   FixedKinds = @@FIXED@@
   WithRelease = @@REL@@
   Emit = @@EMIT@@
